@@ -2,6 +2,7 @@ import DendroModel.Model.C17
 import DendroModel.Theory.C17Perm
 import DendroModel.Theory.C17Ext
 import DendroModel.Theory.C17Gamma
+import DendroModel.Theory.C17Final
 /-! C17 — property theorems about the definitions that `drv_c17` executes (`Model/C17.lean`).
 Numbers are read in ℚ through `Frac.toRat`; `WFT t` says every edge length of `t` is a fraction with non-zero
 denominator (all values arriving over the protocol are).  Specification vocabulary (`Theory/C17*.lean`):
@@ -13,10 +14,10 @@ lengths agree within `ε`, `fage v` the age `calc_node_ages` assigns without for
 * `ages_spec`, `ages_exact_spec`, `age_is_tip_distance`, `reject_iff_local`, `accepted_bound`, `reject_beyond_bound`,
   `reject_only_beyond_precision`,
   `check_disabled_spec`, `force_max_spec`, `force_min_spec`, `force_both_spec` — clause (a)/(b) for ages
-* `lengths_from_ages_roundtrip_partial` (exact), `lengths_from_ages_within`, `lineages_spec`, `leaf_depths_spec`, `node_depths_spec`, `minmax_spec`, `resolve_ages_spec`,
+* `lengths_from_ages_roundtrip_partial` (exact), `lengths_from_ages_within`, `lengths_from_ages_roundtrip`, `lineages_spec_all`, `lineages_spec`, `leaf_depths_spec`, `node_depths_spec`, `minmax_spec`, `resolve_ages_spec`,
   `returned_list_spec`, `set_lengths_spec`, `lineages_between_speciations` — clause (a)
 * `length_eq_def`, `sackin_eq_def`, `nbar_eq_def`, `colless_eq_def`, `b1_eq_def`, `treeness_eq_def`, `gamma_loop_eq_sums`,
-  `gamma_eq_def_partial`, `gamma_eq_def` (with `lineages_between_speciations`) — clause (c)
+  `gamma_eq_def_partial`, `gamma_succeeds`, `gamma_eq_def` (with `lineages_between_speciations`) — clause (c)
 * `stats_perm_invariant_partial` (all but gamma), `gamma_perm_invariant`, `stats_perm_invariant` — child-order independence. -/
 namespace DendroModel.C17.Aux
 open DendroModel DendroModel.C17
@@ -434,7 +435,10 @@ theorem lengths_from_ages_within {cfg : Cfg} {p : Frac} (minLen : Option Frac) (
     simp only [atLens, tLens]
     exact List.Forall₂.cons ⟨rfl, by simpa using hp0⟩ hl
 
-/-- Lengths from ages, the full clause: an accepted tree gets every length back within the precision
+/-- Lengths from ages, both halves of the clause for the options under which it can hold — non-negative original
+lengths, minimum length `None` or ≤ 0, and the error flag only together with minimum 0 (the defaults are minimum 0.0,
+flag off; with the flag and no minimum a within-precision tree may legitimately raise ValueError): an accepted tree
+gets every length back within the precision
 (`lengths_from_ages_within`), and an exactly ultrametric one gets them back exactly
 (`lengths_from_ages_roundtrip_partial`, which this supersedes). -/
 theorem lengths_from_ages_roundtrip {cfg : Cfg} {p : Frac} (minLen : Option Frac) (errNeg : Bool) (t : T)
@@ -452,6 +456,17 @@ theorem lineages_spec (d : Frac) (hd : d.WF) (t : T) (hpos : Pos t) :
   cases t with
   | node i x l s cs =>
     have := lineagesL_spec hd cs Frac.zero Frac.zero_wf hpos
+    simpa [numLineagesAt, T.cs, Frac.zero_toRat] using this
+
+/-- What `num_lineages_at` counts on ANY edge lengths (zero and negative ones included; no `None` below the root): the
+edges whose head is exactly at distance `d`, or whose tail is closer than `d` and whose head is at `d` or beyond.  With
+positive lengths the first disjunct is subsumed (`lineages_spec`); a zero-length edge lying exactly at `d` is counted. -/
+theorem lineages_spec_all (d : Frac) (hd : d.WF) (t : T) (hw : WFT t) (hn : NoNone t) :
+    numLineagesAt d t = .ok ((edgesL 0 t.cs).countP
+      (fun e => decide (e.2 = d.toRat ∨ (e.1 < d.toRat ∧ d.toRat ≤ e.2)))) := by
+  cases t with
+  | node i x l s cs =>
+    have := lineagesL_all hd cs Frac.zero Frac.zero_wf hw.2 hn
     simpa [numLineagesAt, T.cs, Frac.zero_toRat] using this
 
 /-- Root distances: the distance accumulated from the root downwards (`resolve_node_depths`,
@@ -730,7 +745,8 @@ theorem gamma_loop_eq_sums (gs : List Frac) (hg : ∀ g ∈ gs, g.WF) :
 bifurcating nodes sorted in descending order and `g_j = S_j − S_{j+1}` (`S_len = 0`) the waiting times between
 consecutive speciation events, `n` the number of non-bifurcating nodes (the leaves, on a binary tree):
 `T = Σ_{j=0}^{n-2} (j+2) g_j`, the numerator is `(1/(n−2)) Σ_{m<n−2} Σ_{j≤m} (j+2) g_j − T/2`, and the returned value
-is `sign(num) · num² · 12(n−2) / T²` (= `γ·|γ|`; the square root stays outside the model).
+is `sign(num) · num² · 12(n−2) / T²` (the square root stays outside the model; this is `γ·|γ|` when `T > 0`, which
+`gamma_succeeds` proves on the statistic's domain — for `T < 0` the sign of γ would be the opposite).
 `_partial`: not proved that `g_j` is the time during which the tree has `j+2` lineages (`num_lineages_at`), nor that
 `S`'s node ages are tip distances here (that is `ages_exact_spec`). -/
 theorem gamma_eq_def_partial (prec : Option Frac) (t : T) {r : Frac} (h : gamma prec t = .ok r) :
@@ -779,7 +795,8 @@ theorem gamma_eq_def_partial (prec : Option Frac) (t : T) {r : Frac} (h : gamma 
     cases h
 
 /-- Pybus–Harvey gamma equals its published definition.  On a strictly bifurcating, exactly ultrametric tree with
-positive edge lengths, whenever `pybus_harvey_gamma` returns a value: everything `gamma_eq_def_partial` states (sorted
+positive edge lengths, whenever `pybus_harvey_gamma` returns a value (it does, with `n` = number of leaves, as soon as
+there are ≥ 3 leaves: `gamma_succeeds`): everything `gamma_eq_def_partial` states (sorted
 speciation ages `S`, `g_j = S_j − S_{j+1}`, `T = Σ (j+2) g_j`, the double sum, `γ·|γ| = sign(num)·num²·12(n−2)/T²`), and
 `g_j` is exactly the stretch of distances from the root on which `num_lineages_at` counts `j + 2` lineages. -/
 theorem gamma_eq_def (prec : Option Frac) (t : T) (hw : WFT t) (hb : binary t = true) (hpos : Pos t) (hu : Within 0 t)
@@ -807,6 +824,55 @@ theorem gamma_eq_def (prec : Option Frac) (t : T) (hw : WFT t) (hb : binary t = 
       numLineagesAt d t = .ok (j + 2) :=
   ⟨gamma_eq_def_partial prec t h,
    fun d j hd hd0 hdH hj hlo hhi => lineages_between_speciations t hw hb hpos hu d hd hd0 hdH j hj hlo hhi⟩
+
+/-- `pybus_harvey_gamma` SUCCEEDS on its whole domain: on every strictly bifurcating, exactly ultrametric tree with
+positive edge lengths and at least three leaves (any well-formed precision, or none), a value is returned; the `n` of the
+formula is the number of leaves and there are `n − 1` speciation ages (the code's `assert len(g) == n - 1` passes), and
+`T > 0` so that the sign convention of `gamma_eq_def` is the sign of γ.  This discharges the `gamma … = .ok r`
+hypothesis of `gamma_eq_def`. -/
+theorem gamma_succeeds (prec : Option Frac) (hprec : ∀ p, prec = some p → p.WF) (t : T) (hw : WFT t)
+    (hb : binary t = true) (h3 : 3 ≤ nLeaves t) (hpos : Pos t) (hu : Within 0 t) :
+    ∃ r, gamma prec t = .ok r ∧ (specAges (annot t)).2 = nLeaves t ∧ (specAges (annot t)).1.length + 1 = nLeaves t := by
+  obtain ⟨hperm, hcount⟩ := specAges_annot t
+  obtain ⟨c1, c2⟩ := binary_counts t hb
+  have hlen : (specAges (annot t)).1.length + 1 = nLeaves t := by
+    rw [hperm.length_eq, List.length_map]; exact c1
+  have hn : (specAges (annot t)).2 = nLeaves t := by rw [hcount]; exact c2
+  have hwfS : ∀ x ∈ (specAges (annot t)).1, x.WF := by
+    intro x hx
+    obtain ⟨v, _, rfl⟩ := List.mem_map.mp (hperm.subset hx)
+    exact fage_wf v
+  have hwS : ∀ x ∈ sortDesc (specAges (annot t)).1, x.WF := fun x hx => hwfS x ((sortDesc_perm _).subset hx)
+  rw [gamma_unfold prec hprec t hw hu]
+  rcases gammaParts_cases (annot t) hwfS with ⟨t1, _⟩ | ⟨_, t2, _⟩ | ⟨_, _, t3, _⟩ | ⟨t1, _, _, num, tt, tg, wn, wt, htt, _⟩
+  · rw [t1] at hlen; simp at hlen; omega
+  · exact absurd (hlen.trans hn.symm) t2
+  · omega
+  · rw [tg]
+    simp only
+    have hTpos : 0 < tt.toRat := by
+      rw [htt, intervals_map _ hwS]
+      apply wsum_intervalsQ_pos _ 2 (by omega)
+      · intro h0
+        have : (sortDesc (specAges (annot t)).1).length = 0 := by
+          have := congrArg List.length h0; simpa using this
+        rw [(sortDesc_perm _).length_eq] at this
+        exact t1 (List.eq_nil_of_length_eq_zero this)
+      · exact List.pairwise_map.mpr (sortDesc_desc _ hwfS)
+      · intro a ha
+        obtain ⟨y, hy, rfl⟩ := List.mem_map.mp ha
+        obtain ⟨v, hv, rfl⟩ := List.mem_map.mp (hperm.subset ((sortDesc_perm _).subset hy))
+        obtain ⟨hvn, hvb⟩ := List.mem_filter.mp hv
+        rw [fage_toRat v (nodes_wft t hw v hvn)]
+        apply fageQ_pos v (Pos_nodes t hpos v hvn)
+        cases v with
+        | node i x l s cs =>
+          cases cs with
+          | nil => simp [isBif, T.cs] at hvb
+          | cons c cs => rfl
+    rcases gammaSignedSq_cases (specAges (annot t)).2 wn wt with ⟨z, _⟩ | ⟨_, r, gr, _⟩
+    · exact absurd z (ne_of_gt hTpos)
+    · exact ⟨r, gr, hn, hlen⟩
 
 /-! ## child-order independence -/
 
@@ -952,6 +1018,62 @@ example : WFT exTree ∧ NoNone exTree ∧ Pos exTree ∧ NonNeg exTree ∧ With
     simp [exTree, tipDists, tipDistsL, T.len, qlen, olen, Frac.toRat] at hd hd'
     rcases hd with rfl | rfl | rfl <;> rcases hd' with rfl | rfl | rfl <;> norm_num
   · intro m hm; cases hm; exact ⟨Frac.zero_wf, by simp [Frac.zero_toRat]⟩
+
+end DendroModel.C17
+
+namespace DendroModel.C17.Aux
+open DendroModel DendroModel.C17
+/-- the example tree meets the hypotheses used throughout (kept as a lemma so that the examples below can instantiate the
+theorems themselves) -/
+theorem exTree_hyps : WFT exTree ∧ NoNone exTree ∧ Pos exTree ∧ NonNeg exTree ∧ Within 0 exTree := by
+  refine ⟨by simp [exTree, WFT, WFTL, olen, Frac.WF, Frac.zero], ?_, ?_, ?_, ?_⟩
+  · simp [exTree, NoNone, NoNoneL, T.len]
+  · simp [exTree, Pos, PosL, T.len, Frac.WF, Frac.toRat]
+  · simp [exTree, NonNeg, NonNegL, T.len, qlen, olen, Frac.toRat]
+  · intro d hd d' hd'
+    simp [exTree, tipDists, tipDistsL, T.len, qlen, olen, Frac.toRat] at hd hd'
+    rcases hd with rfl | rfl | rfl <;> rcases hd' with rfl | rfl | rfl <;> norm_num
+end DendroModel.C17.Aux
+
+namespace DendroModel.C17
+open DendroModel DendroModel.C17.Aux
+
+/-- `lineages_between_speciations` instantiated: on `exTree` (`S = [2, 1]`, `H = 2`), `j = 0`, `d = 1/2` -/
+example : numLineagesAt ⟨1, 2⟩ exTree = .ok 2 := by
+  obtain ⟨hw, _, hpos, _, hu⟩ := exTree_hyps
+  have hS : (sortDesc (specAges (annot exTree)).1).map Frac.toRat = [2, 1] := by
+    have : sortDesc (specAges (annot exTree)).1 = [⟨2, 1⟩, ⟨1, 1⟩] := by rfl
+    rw [this]; norm_num [Frac.toRat]
+  have hH : (fage exTree).toRat = 2 := by
+    have : fage exTree = ⟨2, 1⟩ := by rfl
+    rw [this]; norm_num [Frac.toRat]
+  have hd : (⟨1, 2⟩ : Frac).toRat = 1 / 2 := by norm_num [Frac.toRat]
+  exact lineages_between_speciations exTree hw rfl hpos hu ⟨1, 2⟩ (by simp [Frac.WF]) (by rw [hd]; norm_num)
+    (by rw [hd, hH]; norm_num) 0 (by rw [hS]; simp) (by rw [hS, hH, hd]; norm_num) (by rw [hS, hH, hd]; norm_num)
+
+/-- `gamma_succeeds` instantiated on `exTree` (3 leaves) -/
+example : ∃ r, gamma (some Frac.zero) exTree = .ok r ∧ (specAges (annot exTree)).2 = 3 := by
+  obtain ⟨hw, _, hpos, _, hu⟩ := exTree_hyps
+  obtain ⟨r, hr, hn, _⟩ := gamma_succeeds (some Frac.zero) (fun p hp => by cases hp; exact Frac.zero_wf) exTree hw rfl
+    (by decide) hpos hu
+  exact ⟨r, hr, hn⟩
+
+/-- `reject_beyond_bound` instantiated: `(A:1,B:4)` at precision 1 has height 1 and two paths differing by 3 > 2·1·1 -/
+example : calcNodeAges ⟨some Frac.one, false, false⟩
+    (.node 0 none none none [.node 1 (some 0) (some ⟨1, 1⟩) none [], .node 2 (some 1) (some ⟨4, 1⟩) none []])
+    = .error .ultra := by
+  apply reject_beyond_bound (p := Frac.one) (d := 1) (d' := 4) _ _ (by simp [Frac.WF, Frac.one]) (by decide)
+  · simp [tipDists, tipDistsL, T.len, qlen, olen, Frac.toRat]
+  · simp [tipDists, tipDistsL, T.len, qlen, olen, Frac.toRat]
+  · norm_num [height, heightL, Frac.toRat, Frac.one]
+  · simp [WFT, WFTL, olen, Frac.WF, Frac.zero]
+
+/-- `lineages_spec_all` instantiated on a zero-length edge: a root with one child at distance 0, asked at `d = 0`: the
+code counts that edge (head exactly at `d`) -/
+example : numLineagesAt Frac.zero (.node 0 none none none [.node 1 (some 0) (some Frac.zero) none []]) = .ok 1 := by
+  rw [lineages_spec_all Frac.zero Frac.zero_wf _ (by simp [WFT, WFTL, olen, Frac.WF, Frac.zero])
+    (by simp [NoNone, NoNoneL, T.len])]
+  simp [T.cs, edgesL, qlen, olen, Frac.toRat, Frac.zero]
 
 /-- a child-shuffled copy -/
 example : Iso exTree (.node 0 none none none
